@@ -146,7 +146,25 @@ def c19_mixed(same_name=False):
 
     A = RecordDescriptor("c19/a", [("varint", "n")])
     B = RecordDescriptor("c19/a", [("varint", "n"), ("string", "s")]) if same_name else RecordDescriptor("c19/b", [("varint", "n")])
-    bad = _refused([A(n=1)], B(n=2))
+    from flow.record import RecordWriter
+
+    with tempfile.TemporaryDirectory() as td:
+        p = os.path.join(td, "a.avro")
+        w = RecordWriter("avro://" + p)
+        w.write(A(n=1))
+        outcomes = []
+        for attempt in range(3):  # the caller carries on after the refusal and offers records of the second type again
+            try:
+                w.write(B(n=2 + attempt))
+                outcomes.append("written")
+            except Exception:
+                outcomes.append("refused")
+        w.close()
+        import fastavro
+
+        with open(p, "rb") as f:
+            raw = list(fastavro.reader(f))
+    bad = None if (outcomes == ["refused"] * 3 and len(raw) == 1) else f"second record type offered three times: {outcomes}; the container holds {len(raw)} record(s)"
     return {"violates": bool(bad), "detail": bad}
 
 
